@@ -3,12 +3,13 @@ import PGA.Drv.EstimateCodec
 import PGA.Model.Pipeline
 /-! Driver ops of the pipeline theorems (`Props/Pipeline.lean`), used by the harnesses of C03 and C04.
 
-`pipe.estimate_batch` `{scheme: {centres, descs, remaps} (as c02.full_batch), lib: {entries, uq, name} (as c01.estimate;
-every correlation evaluated by the harness at the one temperature of the request), registered, set, T, flags, mols: [graph…]}`:
-the composed model `PGA.Pipeline.pipeline` — the scheme's trees are read once, every raw graph is aromatised, matched,
-decomposed, and the resulting counts go through `estimate`; reply `{res: [r…], schemewf, nostar, nomolprefix, connected}` with
-`r = {decomp: "patternMatch"} | {esterr: {...}, counts} | {ok: {cp, h, s[flag], g[flag], range, n, uq}, counts}` plus the
-guards `wf`, `bonded`, `maxraw` of the composition theorems.
+`pipe.estimate_batch` `{scheme: {centres, descs, remaps} (as c02.full_batch), libs: [{T, lib: {entries, uq, name}}] (each as
+c01.estimate: the same library with every correlation evaluated by the harness at that temperature), registered, set, flags,
+mols: [graph…]}`: the composed model `PGA.Pipeline.pipeline` — the scheme's trees are read once, every raw graph is aromatised,
+matched, decomposed, and the resulting counts go through `estimate` once per temperature; reply
+`{res: [r…], schemewf, nostar, nomolprefix, connected}` with `r = {at: [o per T], counts?, wf, bonded, maxraw}` and
+`o = {decomp: "patternMatch"} | {esterr: {...}} | {ok: {cp, h, s[flag], g[flag], range, n, uq}}` (`wf`, `bonded`, `maxraw`: the
+guards of the composition theorems).
 
 `pipe.load_keys` `{groups: [name…], descs: [name…]}`: how `_do_load` keys a library (`PGA.Pipeline.loadContents`):
 `{ok: [key…]} | {err: class}`. -/
@@ -17,26 +18,33 @@ open Lean PGA PGA.Drv PGA.Scheme PGA.Estimate PGA.Drv.EstimateCodec
 
 def jcounts (c : Counts) : Json := Json.arr (c.map fun p => Json.arr #[Json.str p.1, jrat p.2]).toArray
 
-/-- one molecule: `PGA.Pipeline.pipeline reg S lib m set` and the getters at `T` -/
-def one (reg : List String) (S : Decompose.SchemeDef) (lib : PGA.Pipeline.Lib) (set : String) (T : Rat)
+/-- the outcome of `PGA.Pipeline.estimateOf` (the second half of `pipeline`) and the getters at `T` -/
+def jOutcome (T : Rat) (flags : List PyFlag) (r : Except PGA.Pipeline.Err Estimator) : Json :=
+  match r with
+  | .error .patternMatch => Json.mkObj [("decomp", "patternMatch")]
+  | .error (.estimate e) => Json.mkObj [("esterr", jEstErr e)]
+  | .ok e =>
+    let o := e.toND selTable
+    let uq := match e.uq with
+      | none => Json.null
+      | some u => Json.mkObj [("q", jrat u.q), ("dof", Json.num (JsonNumber.fromInt u.dof))]
+    Json.mkObj [("ok", Json.mkObj (jND o T [] flags ++
+      [("range", jrange e.range), ("n", Json.num (JsonNumber.fromNat e.correlations.length)), ("uq", uq)]))]
+
+/-- one molecule under the library evaluated at several temperatures: `PGA.Pipeline.pipeline reg S lib_T m set` for every `T`.
+The decomposition does not depend on the library's values, so `GetDescriptors` is run once per molecule (on the first library
+— `getDescriptors` only touches the library's `name`) and `estimateOf` once per temperature; that this is `pipeline` is
+`PGA.Pipeline.PIPE_driver_computes_pipeline`. -/
+def one (reg : List String) (S : Decompose.SchemeDef) (libs : List (Rat × PGA.Pipeline.Lib)) (set : String)
     (flags : List PyFlag) (m : Mol) : Json :=
+  let d := Decompose.decompose S m
   let guards : List (String × Json) :=
     [("wf", m.wf), ("bonded", m.ringsBonded), ("maxraw", Decompose.maxRaw S (aromatizeBenson m))]
-  -- the counts are reported for diagnosis; the outcome is the composed model's
-  let counts : List (String × Json) := match (PGA.Pipeline.getDescriptors S lib m).2 with
+  let counts : List (String × Json) := match d with
     | .ok c => [("counts", jcounts c)]
     | .error _ => []
-  let out : List (String × Json) := match PGA.Pipeline.pipeline reg S lib m set with
-    | .error .patternMatch => [("decomp", "patternMatch")]
-    | .error (.estimate e) => [("esterr", jEstErr e)]
-    | .ok e =>
-      let o := e.toND selTable
-      let uq := match e.uq with
-        | none => Json.null
-        | some u => Json.mkObj [("q", jrat u.q), ("dof", Json.num (JsonNumber.fromInt u.dof))]
-      [("ok", Json.mkObj (jND o T [] flags ++
-        [("range", jrange e.range), ("n", Json.num (JsonNumber.fromNat e.correlations.length)), ("uq", uq)]))]
-  Json.mkObj (out ++ counts ++ guards)
+  let outs := libs.map fun (T, lib) => jOutcome T flags (PGA.Pipeline.estimateOf reg set (PGA.Pipeline.remember lib m, d))
+  Json.mkObj ([("at", Json.arr outs.toArray)] ++ counts ++ guards)
 
 def loadErrName : PGA.Pipeline.LoadErr → String
   | .syntax => "syntax" | .value => "value" | .duplicate _ => "duplicate"
@@ -45,17 +53,17 @@ def handle (op : String) (j : Json) : Option (Except String Json) :=
   match op with
   | "pipe.estimate_batch" => some do
       let src ← C02.schemeSrc (← j.getObjVal? "scheme")
-      let lib ← getLib (← j.getObjVal? "lib")
+      let libs ← (← arr j "libs").toList.mapM fun l => do
+        pure (← rat l "T", ← getLib (← l.getObjVal? "lib"))
       let reg ← strs j "registered"
       let set ← str j "set"
-      let T ← rat j "T"
       let flags ← match j.getObjVal? "flags" with
         | .ok (.arr a) => a.toList.mapM getFlag
         | _ => pure [PyFlag.none]
       let mols ← (← arr j "mols").toList.mapM molOfJson
       match src.load with
       | .error e => pure <| Json.mkObj [("loaderr", C02.readErrName e)]
-      | .ok S => pure <| Json.mkObj [("res", Json.arr (mols.map (one reg S lib set T flags)).toArray),
+      | .ok S => pure <| Json.mkObj [("res", Json.arr (mols.map (one reg S libs set flags)).toArray),
           ("schemewf", S.wf), ("nostar", S.noStar), ("nomolprefix", S.noMolPrefix), ("connected", S.connected)]
   | "pipe.load_keys" => some do
       let gs ← strs j "groups"
